@@ -32,3 +32,40 @@ contract(
     assumptions=["SubprocSpec.build records its env argument (normalised) as the stage's overlay; prep_env_subproc applies it with swap + detype (contracts above)"],
     from_property="including ... per-command `$X=1 cmd` overlays",
 )
+
+
+# ---- the child environment is computed INSIDE the swap of exactly this stage's overlay ------------------------------------------
+def _swap_ctx(R, cmv, node, frame):
+    from pyvc import models
+    from pyvc.core import mk_int
+    if cmv.t.kind == "opaque" and cmv.t.name == "swapscope":
+        ctxv = R.ctx
+
+        class _S(models.CtxMgr):
+            def enter(self, R2):
+                ctxv.emit_log(R2, "order", mk_int(1))      # 1 = the overlay is in force from here
+                return R2.ctx.lookup_global(R2, "XSH.env") or cmv
+
+            def exit(self, R2, exc):
+                ctxv.emit_log(R2, "order", mk_int(3))      # 3 = the overlay is undone
+                return False
+
+        return _S()
+    return None
+
+
+STRMAPV = Opaque("strmap")
+STAGE = Obj("SubprocSpec", env=Union(NoneT, W.ENVMAP))
+contract(
+    W.S + "SubprocSpec.prep_env_subproc", "C10", params=dict(self=STAGE, kwargs=Dict(Str, STRMAPV)),
+    globals={"xp.ON_WINDOWS": False, "XSH.env": Opaque("envobj")},
+    externals={"envobj.swap": Ext(ret=Opaque("swapscope"), event="swap", log=0, log_type=Union(NoneT, W.ENVMAP), note="Env.swap(other): its own contract (C11)"),
+               "envobj.detype": Ext(ret=STRMAPV, event="order", log=("const", 2), log_type=Int, bind="detyped", note="Env.detype: its own contract above"),
+               "<order>": Ext(event="order", log_type=Int)},
+    hooks={"ctxmgr": _swap_ctx},
+    modifies=["kwargs"],
+    ensures={"the-overlay-swapped-in-is-this-stage's-own": "len(log('swap')) == 1 and log('swap')[0] == self.env",
+             "the-mapping-is-computed-while-the-overlay-is-in-force": "log('order') == [1, 2, 3]",
+             "and-is-what-the-child-gets": "kwargs['env'] == detyped"},
+    from_property="handed to child processes as a string-to-string mapping that reflects the values at launch time - including ... per-command `$X=1 cmd` overlays (swap + detype at spawn)",
+)
